@@ -1,3 +1,4 @@
+// STATUS 2026-09-26: REPAIRED by the /repo commit "fix: union seek_danger left sub-docsets in an invalid state ..." (seek_danger no longer forwards seek_danger to the sub-docsets, it relies on seek); this demo now PASSES (4/4 ok, test profile) on the current /repo and unit buffered_union_extras verifies the new body against the shared contract without O1/O2.  The text below describes the tree BEFORE that commit.
 // Candidate finding (C13 / C03, unit buffered_union_extras): BufferedUnionScorer::seek_danger (src/query/union/buffered_union.rs)
 // "Every DocSet is one sorted sequence under any mix of advance and seek" / "a boolean query matches exactly the documents its
 // clauses describe, and the answer is the same for counting, collecting and ranking".
